@@ -777,6 +777,34 @@ func RunC04(cfg simrt.Config, o world.Opts) *world.Result {
 			b = ref.Encode(nil, v)
 		}
 		logf("type %s, input (%s) %d bytes: %x", e.Name, desc, len(b), clip(b, 128))
+		if simrt.Flip("c04.prehistory", 0.4) {
+			// the process has decoded other inputs before, some of them rejected half-way: whatever
+			// those left in the codec's pools is what this decode starts from
+			n := 1 + ch("c04.prehistory-n", 4)
+			for i := 0; i < n; i++ {
+				pe := registry.Types[ch("c04.prehistory-type", len(registry.Types))]
+				_, pv, pok := validValue(pe)
+				if !pok {
+					pv = genVal(ref.TStruct, 0, genOpts{maxDepth: 2})
+				}
+				for k := ch("c04.prehistory-evolved", 4); k > 0; k-- {
+					pv, _ = evolve(pv, 0)
+				}
+				pb := ref.Encode(nil, pv)
+				var po genOutcome
+				if ch("c04.prehistory-path", 3) != 1 {
+					po = valueBased(pe, pb)
+				} else {
+					po = streaming(pe, pb, simio.Plan{TruncAt: -1, ErrAt: -1})
+				}
+				logf("earlier in this process: %s decoded from %x -> %s", pe.Name, clip(pb, 48), po)
+				if po.panic != "" {
+					res.Failf("C04/panic", "%s: decoding %x panicked: %s", pe.Name, clip(pb, 96), po.panic)
+					return
+				}
+			}
+			res.Count("c04.decodes-with-a-prehistory", 1)
+		}
 		vb := valueBased(e, b)
 		full := simio.Plan{TruncAt: -1, ErrAt: -1}
 		st := streaming(e, b, full)
